@@ -117,6 +117,9 @@ static void init(void) {
 }
 
 long fjallfs_counter(void) { return COUNTER; }
+// Re-arms fault injection from inside the process (E3 bodies): the k-th journal operation from now fails with errno.
+void fjallfs_arm_fail(long k, int err) { init(); if (!MODE) MODE = 1; MODE = 4; FAIL_AT = JCOUNTER + k; FAIL_ERRNO = err; FAIL_SHORT = -1; }
+void fjallfs_disarm(void) { FAIL_AT = -1; }
 long fjallfs_jcounter(void) { return JCOUNTER; }
 
 static int under_root(const char *p) {
